@@ -16,6 +16,7 @@ type slotCase struct {
 	Tasks   []int `json:"tasks"`   // tasks per process
 	SleepMs int   `json:"sleep_ms"`
 	Delay   string `json:"delay,omitempty"`
+	GoMaxProcs int `json:"gomaxprocs,omitempty"` // run the workflow with this GOMAXPROCS (fewer CPUs than cores per task)
 	Pre     bool   `json:"pre,omitempty"` // outputs of every second task exist before the run (those tasks are skipped)
 }
 
@@ -182,6 +183,9 @@ func runSlotCase(ctx *Ctx, c slotCase) {
 		return 1
 	}
 	env := []string{}
+	if c.GoMaxProcs > 0 {
+		env = append(env, fmt.Sprintf("GOMAXPROCS=%d", c.GoMaxProcs))
+	}
 	if c.Delay != "" {
 		env = append(env, "VERIF_DELAY="+c.Delay)
 	}
@@ -295,6 +299,8 @@ func checkC06(ctx *Ctx) {
 	cases := []slotCase{{Max: 2, Cores: []int{2, 2}, Tasks: []int{3, 3}, SleepMs: 30}, {Max: 3, Cores: []int{2, 1, 3}, Tasks: []int{3, 4, 2}, SleepMs: 25},
 		{Max: 2, Cores: []int{1}, Tasks: []int{12}, SleepMs: 30, Pre: true}, {Max: 2, Cores: []int{2, 1}, Tasks: []int{8, 6}, SleepMs: 30, Pre: true},
 		{Max: 1, Cores: []int{1}, Tasks: []int{6}, SleepMs: 20}, {Max: 4, Cores: []int{3, 2}, Tasks: []int{4, 4}, SleepMs: 25, Delay: "inc.token:5"}}
+	// fewer CPUs than a task asks cores for: the slots are a bookkeeping of the workflow, not of the machine
+	cases = append(cases, slotCase{Max: 4, Cores: []int{2, 1}, Tasks: []int{4, 4}, SleepMs: 40, GoMaxProcs: 1}, slotCase{Max: 3, Cores: []int{3}, Tasks: []int{3}, SleepMs: 40, GoMaxProcs: 2})
 	// a multi-core task asking for slots while some, but not enough, are free (several single-core tasks running)
 	for k := 0; k < 4; k++ {
 		cases = append(cases, slotCase{Max: 4, Cores: []int{1, 2}, Tasks: []int{6, 4}, SleepMs: 60}, slotCase{Max: 5, Cores: []int{1, 3}, Tasks: []int{6, 3}, SleepMs: 60, Delay: "inc.token:3"})
